@@ -247,7 +247,7 @@ func checkC08(rc *Run) error {
 			for v := range jobs {
 				e, d := g.Exprs[v.Ei], g.Docs[v.Di]
 				text, doc := exprText(e), d.JSON()
-				if v.Di == 1 {
+				if v.Di == 1 && v.St != "unspec" { // operators the reference leaves open (sort_keys sorts in place by design) are not judged on the YAML pool either
 					for _, y := range c08YamlPool {
 						st, before, after := evalSnapshot(text, y)
 						mu.Lock()
